@@ -3,6 +3,7 @@ from .common import jobs_for
 LEVEL = 'proof'
 LEVEL_TEXT = 'for every operator / reflected operator / comparison / logical operator / neg / abs / pow of CellVariable and FaceVariable and for funceval, celleval, faceeval (incl. an identity function), with variable, scalar and ndarray operands: the result element equals the operator applied to the operand elements for a symbolic cell (face); the write log contains no buffer reachable from an operand and no attribute of an operand is re-bound; result buffers and BC / BoundaryFace objects are disjoint from the operands; the result BCs equal the left-most variable operand coefficient by coefficient and the result ghosts satisfy them; copy() and update_value() contracts (C09) complete the independence claim'
 LEVEL_NOTE = 'expression trees of any depth follow by induction from the per-operator contracts; heap facts come from the model buffer ids / write log (A2) and are cross-checked natively with numpy.shares_memory and before/after snapshots on every run; faceeval with an identity-like function is a recorded finding'
+NOT_MACHINE_CHECKED = ['expression trees of arbitrary depth: induction over the tree from the per-operator contracts', 'numpy.float64 scalars on the LEFT of a variable are handled by numpy itself (result is a plain ndarray); the contracts use Python floats there']
 MODULES = ['contracts.algebra', 'contracts.state']
 TRUSTED = ['A1', 'A2', 'A5', 'A6', 'UF']
 
